@@ -271,3 +271,126 @@ func VerifLemma_C05F_PackageNoImportCycle() {
 	}
 	verifAssert(len(w.anns) == want, "nothing else is reported, nothing twice")
 }
+
+// VerifLemma_C05F_RPCUniqueAcrossServices: RPC_REQUEST_RESPONSE_UNIQUE over FILES files (import flag nondet) x SVCS
+// services x 1..METHODS methods. Method *names* are symbolic one-letter names (so the same simple name occurs in
+// different services; within a service names are distinct), request / response types come from the pool
+// {p.A, p.B, google.protobuf.Empty}, the three allow_* options are symbolic. The handler gets the non-import files
+// (what NewLintFilesRuleHandler passes, C05-E) while request.ProtosourceFiles() holds all files.
+// Exact expectation, per method m of a non-import file:
+//   1 annotation if request == response (unless allow_same, or both are Empty and both allow-Empty options are set)
+//   + 1 annotation per distinct type T of m that another RPC *of a non-import file* also uses as request or response
+//     (for T = Empty with one allow-Empty option: only in the role that is not allowed and used more than once);
+// every annotation sits at m's declaration with m's file path; methods of import files are never annotated and do not
+// make a type "shared".
+func VerifLemma_C05F_RPCUniqueAcrossServices() {
+	nFiles, nSvcs, maxMethods := verifParam("FILES"), verifParam("SVCS"), verifParam("METHODS")
+	pool := []string{"p.A", "p.B", "google.protobuf.Empty"}
+	const empty = 2
+	type mrec struct {
+		m       *lvMethod
+		in, out int
+		live    bool // declared in a non-import file
+	}
+	var all []*mrec
+	var allFiles, liveFiles []bufprotosource.File
+	for fi := 0; fi < nFiles; fi++ {
+		f := &lvFile{path: "d/f" + string(rune('0'+fi)) + ".proto", pkg: "p", isImport: nFiles > 1 && verifNondetBool()}
+		for si := 0; si < nSvcs; si++ {
+			svcName := "S" + string(rune('0'+fi)) + string(rune('0'+si))
+			svc := &lvService{lvNamed: lvNamed{file: f, id: svcName, name: svcName}}
+			nm := verifNondetChoice(maxMethods) + 1
+			var first string
+			for mi := 0; mi < nm; mi++ {
+				name := verifNondetStringN(1)
+				verifAssume(name[0] >= 'a' && name[0] <= 'z')
+				if mi == 0 {
+					first = name
+				} else {
+					verifAssume(name != first) // RPC names are unique within a service
+				}
+				id := svcName + "." + string(rune('0'+mi))
+				r := &mrec{in: verifNondetChoice(len(pool)), out: verifNondetChoice(len(pool)), live: !f.isImport}
+				r.m = &lvMethod{lvNamed: lvNamed{file: f, id: id, name: name}, service: svc,
+					fullName: "p." + svcName + "." + name, in: pool[r.in], out: pool[r.out]}
+				svc.methods = append(svc.methods, r.m)
+				all = append(all, r)
+			}
+			f.svcs = append(f.svcs, svc)
+		}
+		allFiles = append(allFiles, f)
+		if !f.isImport {
+			liveFiles = append(liveFiles, f)
+		}
+	}
+	allowSame, allowReq, allowResp := verifNondetBool(), verifNondetBool(), verifNondetBool()
+	req := lvNewReq(map[string]any{
+		"rpc_allow_same_request_response":           allowSame,
+		"rpc_allow_google_protobuf_empty_requests":  allowReq,
+		"rpc_allow_google_protobuf_empty_responses": allowResp,
+	})
+	req.files = allFiles
+	w := &lvRW{}
+	err := handleLintRPCRequestResponseUnique(w, req, liveFiles)
+	verifCover("handled")
+	verifAssert(err == nil, "no error")
+
+	users := func(t int, role int) int { // role 0: any, 1: as request, 2: as response
+		n := 0
+		for _, r := range all {
+			if !r.live {
+				continue
+			}
+			if (role != 2 && r.in == t) || (role != 1 && r.out == t) {
+				n++
+			}
+		}
+		return n
+	}
+	total := 0
+	for _, r := range all {
+		got := 0
+		for _, a := range w.anns {
+			if a.loc == r.m.id+"/decl" {
+				got++
+				verifAssert(a.file == r.m.file.path, "annotation carries the path of the method's file")
+			}
+		}
+		total += got
+		if !r.live {
+			verifCover("method of an import file")
+			verifAssert(got == 0, "a method of an import-only file is never reported")
+			continue
+		}
+		want := 0
+		if r.in == r.out && !allowSame && !(r.in == empty && allowReq && allowResp) {
+			want++
+		}
+		for k, t := range []int{r.in, r.out} {
+			if k == 1 && r.out == r.in {
+				continue // one entry per (method, type)
+			}
+			if users(t, 0) < 2 {
+				continue
+			}
+			if t == empty && (allowReq || allowResp) {
+				if allowReq && allowResp {
+					continue
+				}
+				if !allowReq && r.in == empty && users(empty, 1) > 1 {
+					want++
+				}
+				if !allowResp && r.out == empty && users(empty, 2) > 1 {
+					want++
+				}
+				continue
+			}
+			want++
+		}
+		if want > 0 {
+			verifCover("offending method")
+		}
+		verifAssert(got == want, "a method is reported once for request == response and once per type it shares with another non-import RPC")
+	}
+	verifAssert(total == len(w.anns), "every annotation is at the declaration of one of the methods")
+}
